@@ -87,6 +87,9 @@ type GJournal struct {
 // on decides whether an optional feature is used: never when denied, only the listed ones
 // when Only is set, else with probability 1/k.
 func (o GOpts) on(r *rand.Rand, name string, k int) bool {
+	if o.Force[name] {
+		return true
+	}
 	if o.Deny[name] {
 		return false
 	}
@@ -100,6 +103,7 @@ func (o GOpts) on(r *rand.Rand, name string, k int) bool {
 }
 
 type GOpts struct {
+	Force map[string]bool // productions that are always taken
 	Deny map[string]bool
 	Only map[string]bool
 	MaxEntries int
